@@ -356,6 +356,23 @@ Section Writer.
     apply Hcov. rewrite He. exact Hin.
   Qed.
 
+  (* the filter changes the cost of a lookup, not its result: whenever the data block at o holds
+     an entry for a key that was added while that block was open, the filtered lookup returns what
+     the unfiltered one returns; and when the unfiltered lookup finds nothing, so does the filtered
+     one (unless the policy's Contains panics) *)
+  Theorem fw_filter_changes_no_result ops data {A} (unfiltered : N -> bytes -> option A) :
+    flushes_mono ops 0 -> fw_build P lg ops = Some data -> lenN data < 2 ^ 32 ->
+    (forall o k, unfiltered o k <> None -> In (o, k) (tagged ops 0)) ->
+    forall o k, fb_may_contain P data o k <> None ->
+      find_with_filter P data o k (unfiltered o k) = Some (unfiltered o k).
+  Proof.
+    intros Hm Hb Hlen Hst o k Hnp. unfold find_with_filter.
+    destruct (unfiltered o k) as [v|] eqn:Hu.
+    - rewrite (fw_no_false_negative ops data Hm Hb Hlen o k); [reflexivity|].
+      apply Hst. rewrite Hu. discriminate.
+    - destruct (fb_may_contain P data o k) as [[|]|]; [reflexivity|reflexivity|contradiction].
+  Qed.
+
   (* the block the writer produces is accepted by the reader's parser with the writer's baseLg *)
   Theorem fw_block_parses ops data :
     fw_build P lg ops = Some data -> flushes_mono ops 0 -> lenN data < 2 ^ 32 ->
